@@ -47,7 +47,7 @@ let cmd_claim t =
   | PgErr -> Printf.printf "err res=err\n"
   | PgPanic -> Printf.printf "panic\n"
 
-(* hist <blob> <nops> (x | c <count hex> | f <bit index> | h <hash index> <byte index> <mask>)* *)
+(* mhist <blob> <nops> (x | c <count hex> | f <bit index> | h <hash index> <byte index> <mask> | ha <i> <byte> | hd <i> | he <i>)* *)
 let cmd_hist t =
   let blob = next_hex t in
   let ops = next_list t (fun t ->
@@ -57,6 +57,9 @@ let cmd_hist t =
     | "f" -> HFlip (nat_of_int (next_int t))
     | "h" -> let i = next_int t in let j = next_int t in let m = next_int t in
              HHash (nat_of_int i, nat_of_int j, n_of_int m)
+    | "ha" -> let i = next_int t in let b = next_int t in HAppend (nat_of_int i, n_of_int b)
+    | "hd" -> HDropLast (nat_of_int (next_int t))
+    | "he" -> HEmpty (nat_of_int (next_int t))
     | o -> failwith ("op " ^ o)) in
   match mkl_hist blob ops with
   | None -> Printf.printf "err res=parse-err\n"
